@@ -103,11 +103,13 @@ Definition doc_preamble : list pdoc := [
   mkP "__LUA_DICT_META" "table" "9ee1f32cf44f07b9" (Internal "constructor VDict");
   mkP "__LUA_DICT_META.__eq" "fn:2" "80b4a3c84a039b6a" (Modelled "rt_eq");
   mkP "__LUA_DICT_META.__tostring" "fn:1" "cc1859051be1cdf3" (Modelled "rt_tostring");
+  (* since /repo aaf31ad: the injective text under which dicts and sets keep an entry *)
+  mkP "__KEY" "fn:1" "0c6b7de4ffa0daea" (Modelled "rt_key");
   mkP "dict_new" "fn:0" "d3c2c6eff357513f" (Modelled "rt_dict_new");
   mkP "dict_from_list" "fn:1" "0096bacf8b8f431a" (Modelled "rt_dict_from_list");
-  mkP "dict_update" "fn:3" "606fa5812c93225a" (Modelled "rt_dict_update");
-  mkP "dict_remove" "fn:2" "4ff0640e6a0a128a" (Modelled "rt_dict_remove");
-  mkP "dict_get" "fn:2" "de34cf107905dccb" (Modelled "rt_dict_get");
+  mkP "dict_update" "fn:3" "4bd67fe2d6f4682c" (Modelled "rt_dict_update");
+  mkP "dict_remove" "fn:2" "ebc70ccd091f210e" (Modelled "rt_dict_remove");
+  mkP "dict_get" "fn:2" "efb4fb4d59ae37fa" (Modelled "rt_dict_get");
   mkP "dict_for_each" "fn:2" "eaf58e0cdfbc71d2" (OutOfModel "effectful callback; not in C18's list");
   mkP "dict_map" "fn:2" "7988373d4c325c1e" (OutOfModel "not in C18's list");
   mkP "__LUA_SET_META" "table" "52a29af136b43d1c" (Internal "constructor VSet");
@@ -115,9 +117,9 @@ Definition doc_preamble : list pdoc := [
   mkP "__LUA_SET_META.__tostring" "fn:1" "9351f772d4407dcc" (Modelled "rt_tostring");
   mkP "set_new" "fn:0" "149e879a9976c942" (Modelled "rt_set_new");
   mkP "set_from_list" "fn:1" "af7d986006e87f13" (Modelled "rt_set_from_list");
-  mkP "set_add" "fn:2" "fdd6c5ab86913f0f" (Modelled "rt_set_add");
-  mkP "set_remove" "fn:2" "5cb4d7ab6ac80d7b" (Modelled "rt_set_remove");
-  mkP "set_contains" "fn:2" "d2a6278b16158cde" (Modelled "rt_set_contains");
+  mkP "set_add" "fn:2" "ef9a0429c62220c0" (Modelled "rt_set_add");
+  mkP "set_remove" "fn:2" "e51acde60993b907" (Modelled "rt_set_remove");
+  mkP "set_contains" "fn:2" "d1e47b5b6331ccc2" (Modelled "rt_set_contains");
   mkP "set_for_each" "fn:2" "24cc271bd52e77fd" (OutOfModel "effectful callback; not in C18's list");
   mkP "set_map" "fn:2" "cf1ef528f13ce03c" (OutOfModel "not in C18's list (returns a table with the DICT metatable)")
 ].
